@@ -10,14 +10,19 @@ the calls made, and a silent run says "no interference observed in N overlapping
 """
 import sys
 import threading
+import time
 
 import numpy as np
 
 from vt.monitors.history import _snapshot, _same
 
 
-def concurrent_check(calls, threads=4, rounds=3):
-    """calls: list of (fn, args, kwargs).  -> ("n/a" | "ok" | "race", detail)"""
+def concurrent_check(calls, threads=4, rounds=3, yield_in=None):
+    """calls: list of (fn, args, kwargs).  -> ("n/a" | "ok" | "race", detail)
+
+    yield_in: file name of the module under test; the worker threads then give up the interpreter at
+    every statement of that file (a line tracer calling time.sleep(0)), so that the threads interleave
+    between any two statements of the functions - legitimate switch points of CPython threads."""
     if len(calls) < 2:
         return "n/a", None
     try:
@@ -29,7 +34,16 @@ def concurrent_check(calls, threads=4, rounds=3):
     errors = []
     start = threading.Barrier(threads)
 
+    def tracer(frame, event, arg):
+        if frame.f_code.co_filename != yield_in:
+            return None
+        if event == "line":
+            time.sleep(0)
+        return tracer
+
     def worker(t):
+        if yield_in:
+            sys.settrace(tracer)
         try:
             start.wait(timeout=5)
         except Exception:
